@@ -16,12 +16,14 @@ def exhaustive(ctx, pid):
     if pid == "C05":
         ctx.tlc_mc("Durable.tla", "Durable_dev_lo.cfg", timeout=300, expect_violation="SearchCorrect", count=False)
 
-def run_file(ctx, mode, nscen, ntrials, tag, timeout=3000):
+def run_file(ctx, mode, nscen, ntrials, tag, timeout=3000, extra_env=None):
     drv = ctx.go_build("dbfile")
     scratch = os.path.join(ctx.work, "files-" + tag)
     os.makedirs(scratch, exist_ok=True)
     trace = os.path.join(ctx.work, tag + ".ndjson")
     env = {"VERIF_FLUSH": "1", "VERIF_SEED": str(ctx.seed * 1000 + sum(map(ord, tag)))}
+    if extra_env:
+        env.update(extra_env)
     rc, out, summ = ctx.driver(drv, [mode, scratch, trace, nscen, ntrials], timeout=timeout, env=env, name="dbfile:" + mode)
     shutil.rmtree(scratch, ignore_errors=True)
     if not os.path.exists(trace) or os.path.getsize(trace) == 0:
